@@ -22,12 +22,14 @@
                  per table (each query reads one table).
    C06_when      a Cache Response that arrives while the socket requests a new session (set by a Cache Reset:
                  C06_when_cache_reset) and has synchronised before (last_update <> 0) is processed in reset mode: the
-                 main tables change only as a whole.  NOT proved: "holds data implies last_update <> 0" as an invariant of
-                 all runs of the state machine (it holds because records are only added by a synchronisation that sets
-                 last_update to the clock, which starts at 1000, and the purge zeroes both).                            *)
+                 main tables change only as a whole.
+   C06_data_implies_synchronised   "holds data implies last_update <> 0" in every world any run of the state machine reaches
+                 (part of C07's invariant Inv, Rtr/ExpirySync.v): so every reload of a cache that already supplied data -
+                 the case the property is about - is processed in reset mode.                                            *)
 From Coq Require Import List Bool ZArith.
 Import ListNotations.
 From RtrV Require Import Conc.RwLock Conc.ConcProofs Rtr.RtrModel Conc.LockCheck Conc.Reload.
+From RtrV Require Rtr.SyncSets Rtr.ExpirySync Rtr.ExpiryProofs.
 
 Section Generic.
 Variable K : Type.
@@ -131,6 +133,17 @@ Theorem C06_when_cache_reset : forall fuel w,
   end.
 Proof. exact when_cache_reset. Qed.
 
+(* every reachable world (any environment script, any number of iterations, stops included) that holds a record of this socket
+   has synchronised before: last_update <> 0, the second hypothesis of C06_when *)
+Theorem C06_data_implies_synchronised : forall n fuel w, Rtr.ExpirySync.Inv w ->
+  let w' := run_fsm n fuel w in
+  (Rtr.SyncSets.own_p (pfx w') <> [] \/ Rtr.SyncSets.own_k (keys w') <> []) -> last_update (sk w') <> 0%Z.
+Proof.
+  intros n fuel w HI w' Hd E.
+  destruct (Rtr.ExpiryProofs.run_fsm_Inv n fuel w HI) as (_ & _ & _ & Hn).
+  destruct (Hn E) as (Ep & Ek). destruct Hd as [Hd|Hd]; [apply Hd, Ep|apply Hd, Ek].
+Qed.
+
 Print Assumptions C06_general.
 Print Assumptions C06_written_once.
 Print Assumptions C06.
@@ -143,3 +156,4 @@ Print Assumptions C06_instance_once.
 Print Assumptions C06_instance_new_is_model_new.
 Print Assumptions C06_when.
 Print Assumptions C06_when_cache_reset.
+Print Assumptions C06_data_implies_synchronised.
